@@ -36,6 +36,8 @@ type psMsg struct {
 	gotCid       string
 	gotOpid      string
 	pubOpid      string
+	timeout      time.Duration
+	gotTimeout   time.Duration
 	startStep    int
 	order        int
 	mwPub, mwSub []string
@@ -155,6 +157,7 @@ func pubsubHarness(rc *RunCtx) {
 		if m.got == 1 {
 			m.gotItem, m.gotHdr, m.gotCid = it, fctx.RequestHeaders(), fctx.CorrelationID()
 			m.gotOpid, _ = fctx.RequestHeader("_opid")
+			m.gotTimeout = fctx.Timeout()
 			m.startStep = s.Step
 			m.order = handled
 		}
@@ -367,6 +370,7 @@ func pubsubHarness(rc *RunCtx) {
 		nInflight := tp.Intn("ops", rc.Scale(3, 8))
 		nPost := 1 + tp.Intn("ops", 3)
 		seq := int64(0)
+		var lastCtx frugal.FContext
 		publish := func(phase string) {
 			seq++
 			it := genItem(tp, seq)
@@ -384,8 +388,26 @@ func pubsubHarness(rc *RunCtx) {
 			msgs[seq] = m
 			order = append(order, m)
 			ctx := frugal.NewFContext(m.cid)
+			if lastCtx != nil && tp.Intn("reuse", 5) == 4 {
+				// the same FContext object publishes again, changed in between
+				ctx = lastCtx
+				m.cid = ctx.CorrelationID()
+				rc.Fault("fcontext-reused-for-another-publish")
+			}
+			onlyTimeout := ctx == lastCtx && tp.Intn("reuse", 2) == 1
+			lastCtx = ctx
+			m.timeout = time.Duration(1+tp.Intn("hdr", 90000)) * time.Millisecond
+			ctx.SetTimeout(m.timeout)
 			for k, v := range m.hdr {
-				ctx.AddRequestHeader(k, v)
+				if !onlyTimeout {
+					ctx.AddRequestHeader(k, v)
+				}
+			}
+			m.hdr = map[string]string{}
+			for k, v := range ctx.RequestHeaders() {
+				if !strings.HasPrefix(k, "_") {
+					m.hdr[k] = v
+				}
 			}
 			m.pubOpid, _ = ctx.RequestHeader("_opid")
 			m.pubErr = pub.PublishItemCreated(ctx, user, it)
@@ -503,6 +525,9 @@ func pubsubHarness(rc *RunCtx) {
 			}
 			if !reflect.DeepEqual(gh, m.hdr) || m.gotCid != m.cid {
 				rc.Violate("C09", "pubsub-context-differs", key, fmt.Sprintf("%s: published headers %q cid %q, subscriber saw %q cid %q", where, m.hdr, m.cid, gh, m.gotCid))
+			}
+			if m.gotTimeout != m.timeout {
+				rc.Violate("C09", "pubsub-timeout-differs", key, fmt.Sprintf("%s: published with timeout %v, subscriber context reports %v", where, m.timeout, m.gotTimeout))
 			}
 			if m.gotOpid == "" || m.gotOpid == m.pubOpid {
 				rc.Violate("C09", "pubsub-opid-not-fresh", key, fmt.Sprintf("%s: publisher op id %s, callback op id %q", where, m.pubOpid, m.gotOpid))
